@@ -76,6 +76,21 @@ INCR_PRIMS = [TM + "try_get_amount_delta_a", TM + "try_get_amount_delta_b", BM +
               BM + "checked_mul_div_round_up_if", BM + "checked_mul_shift_right_round_up_if"]
 
 
+def delegates_rounding(fn):
+    """(callee, ok) when fn has no increment of its own and hands the division to another audited rounding primitive with its own
+    `round_up` flag (checked_mul_div_round_up_if ending in div_round_up_if(p, d, round_up)): the idiom is then that primitive's."""
+    if increment_blocks(fn) or _incremented_terms(fn):
+        return None
+    pv = prov_of(fn)
+    for bi, t in fn.calls():
+        p = callee_path(t)
+        if p in INCR_PRIMS and p != fn.path and not fn.blocks[bi]["c"]:
+            args = [pv.operand(a, bi, len(fn.blocks[bi]["s"])) for a in t["a"]]
+            flag_ok = bool(args) and is_param(args[-1], "round_up")
+            return p, flag_ok and bool(cfg.result_checked(fn, bi) or t["d"]["l"] == 0)
+    return None
+
+
 def increment_blocks(fn):
     """Blocks that add one: `x + 1` on integers or `.add(U256Muldiv::new(0, 1))`."""
     pv = prov_of(fn)
@@ -196,6 +211,11 @@ def R2_rounding_primitives(run):
     for p in INCR_PRIMS:
         fn = facts.need_fn(p)
         run.touch(fn)
+        dg = delegates_rounding(fn)
+        if dg is not None:
+            run.check("R2", "incr-delegated@" + fn.path, dg[1], "%s hands its rounding to %s but not with its own round_up flag / unchecked" % (fn.path, dg[0]), loc=fn.loc(),
+                      detail="rounds through %s(.., round_up)" % dg[0].rsplit("::", 1)[-1])
+            continue
         check_increment_idiom(run, "R2", fn)
         n_narrow += check_increment_overflow(run, "R2", fn)
     run.floor("R2", "increments of narrowed shift quotients", n_narrow, 2)
@@ -552,6 +572,8 @@ def R5_exact_remainders(run):
     run.check("R5", "TO_Q64", cv(BM + "TO_Q64") == 1 << 64, "TO_Q64 = %s" % cv(BM + "TO_Q64"), detail="2^64")
     for p in INCR_PRIMS:
         fn = facts.need_fn(p)
+        if delegates_rounding(fn) is not None:
+            continue      # decided on the primitive it delegates to (R2 incr-delegated)
         check_remainder_exact(run, "R5", fn)
     # the 256-bit division hands back a literal zero remainder only for a zero dividend (when the remainder is asked for):
     # every other early exit must return the true remainder, or the ceil forms above silently become floors
